@@ -10,6 +10,9 @@ func readPitm(b *box) (id itemID, err error) {
 	if err != nil {
 		return -1, err
 	}
+	if len(buf) < 6 {
+		return -1, ErrBufLength
+	}
 	b.readFlagsFromBuf(buf)
 	id = itemID(bmffEndian.Uint16(buf[4:]))
 	if logLevelInfo() {
